@@ -53,6 +53,10 @@ func eachInstrDeep(f *ssa.Function, fn func(*ssa.Function, ssa.Instruction)) {
 					return
 				}
 				sc := ci.Common().StaticCallee()
+				// a call of a generic method from a generic body goes to an instance without a body of its own
+				if sc != nil && sc.Origin() != nil && sc.Origin() != sc && len(sc.Origin().Blocks) > 0 {
+					sc = sc.Origin()
+				}
 				if sc == nil || seen[sc] || !isNewHelper(sc) || sc.Pkg != h.Pkg {
 					return
 				}
